@@ -24,6 +24,9 @@ import (
 func RegisterAll() {
 	run.Register(&c01{})
 	run.Register(&c02{})
+	run.Register(&c03{})
+	run.Register(&c04{})
+	run.Register(&c05{})
 }
 
 func hashStr(parts ...string) string {
